@@ -130,10 +130,42 @@ def resume_label_features(p):
     return f
 
 
+def _vars_in(e):
+    return {(x["n"], x["t"]) for x in walk_expr(e) if x.get("k") == "var"}
+
+
+def call_features(p):
+    """byref-subscript-names-earlier-byref-variable: a call passes a plain variable by reference and, further right, an array
+    element whose subscript names that variable (the shape of the recorded write-back defect: the subscript is evaluated
+    again after the call, when the variable has already got its new value)"""
+    f = set()
+    lists = []
+    for s in all_stmts(p):
+        if s["k"] == "call":
+            lists.append(s["args"])
+        for e in exprs_of_stmt(s):
+            for x in walk_expr(e):
+                if x.get("k") == "fcall":
+                    lists.append(x["args"])
+    for args in lists:
+        seen = set()
+        for a in args:
+            if a.get("k") == "idx":
+                named = set()
+                for sub in a["subs"]:
+                    named |= _vars_in(sub)
+                if named & seen:
+                    f.add("byref-subscript-names-earlier-byref-variable")
+            if a.get("k") == "var":
+                seen.add((a["n"], a["t"]))
+    return f
+
+
 def of_prog(p):
     f = set()
     f |= jump_features(p["main"])
     f |= resume_label_features(p)
+    f |= call_features(p)
     for sp in p.get("subs", []):
         f |= jump_features(sp["body"])
     for s in all_stmts(p):
